@@ -1390,12 +1390,12 @@ Error query_rw_info(Arch arch, const BaseInst& inst, const Operand_* operands, s
           out->_operands[0].reset(W, size0);
           out->_operands[1].reset(R, size1);
 
-          if (inst_rm_info.rm_ops_mask & 0x1) {
+          if ((inst_rm_info.rm_ops_mask & 0x1) && !inst.has_option(InstOptions::kX86_ER)) {
             out->_operands[0].add_op_flags(RegM);
             out->_operands[0].set_rm_size(size0);
           }
 
-          if (inst_rm_info.rm_ops_mask & 0x2) {
+          if ((inst_rm_info.rm_ops_mask & 0x2) && !inst.has_option(InstOptions::kX86_ER)) {
             out->_operands[1].add_op_flags(RegM);
             out->_operands[1].set_rm_size(size1);
           }
@@ -1480,12 +1480,12 @@ Error query_rw_info(Arch arch, const BaseInst& inst, const Operand_* operands, s
         }
 
         if (operands[0].is_reg() && operands[1].is_reg()) {
-          if (inst_rm_info.rm_ops_mask & 0x1) {
+          if ((inst_rm_info.rm_ops_mask & 0x1) && !inst.has_option(InstOptions::kX86_ER)) {
             out->_operands[0].add_op_flags(RegM);
             out->_operands[0].set_rm_size(size0);
           }
 
-          if (inst_rm_info.rm_ops_mask & 0x2) {
+          if ((inst_rm_info.rm_ops_mask & 0x2) && !inst.has_option(InstOptions::kX86_ER)) {
             out->_operands[1].add_op_flags(RegM);
             out->_operands[1].set_rm_size(size1);
           }
